@@ -93,7 +93,7 @@ Qed.
     in the slashed world (peg fee on), and the transactions indeed succeed *)
 Example bond_tx_succeeds_nonvacuous :
   exists h g tb ts r,
-    Wired worldS /\ RateE1 worldS /\ Mirror worldS /\
+    Wired worldS /\ EntWf worldS /\ RateE1 worldS /\ Mirror worldS /\
     w_hub worldS = Some h /\ w_reg worldS = Some g /\ w_bsei worldS = Some tb /\
     w_stsei worldS = Some ts /\ w_reward worldS = Some r /\
     paused h = false /\ RegOk g /\ TInv tb /\ TInv ts /\
@@ -104,7 +104,7 @@ Example bond_tx_succeeds_nonvacuous :
     hs_ber rx_sS = rate_of (hs_bb rx_sS) (claims_b h tb) /\
     hs_ber rx_sS < hp_thr (h_params h) /\
     bond_b_amount h rx_sS (tk_supply tb) 500000 = 514655 /\
-    500000 * D / hs_ser rx_sS = 517241 /\ 0 < hs_ser rx_sS.
+    500000 * D / hs_ser rx_sS = 517241 /\ 0 < hs_ser rx_sS /\ 0 < hs_ber rx_sS.
 Proof.
   destruct (w_hub worldS) as [h|] eqn:Hh; [|vm_compute in Hh; discriminate].
   destruct (w_reg worldS) as [g|] eqn:Hg; [|vm_compute in Hg; discriminate].
@@ -112,7 +112,7 @@ Proof.
   destruct (w_stsei worldS) as [ts|] eqn:Hs; [|vm_compute in Hs; discriminate].
   destruct (w_reward worldS) as [r|] eqn:Hr; [|vm_compute in Hr; discriminate].
   exists h, g, tb, ts, r.
-  split; [exact rx_wiredS|]. split; [exact rx_E1_S|]. split; [exact rx_mirrorS|].
+  split; [exact rx_wiredS|]. split; [exact rx_entwfS|]. split; [exact rx_E1_S|]. split; [exact rx_mirrorS|].
   do 5 (split; [reflexivity|]).
   assert (HT : TokInv worldS).
   { unfold worldS, world0, run_ops. rewrite <- fold_left_app. apply (TokInv_reachable 100). }
